@@ -2,7 +2,7 @@
 (* Executable entry point of the C15 correspondence.  A coordinate token is the 64-bit pattern of the double
    (sent as two 32-bit halves); operator== identifies the two zeros; rnd is a finite table supplied by the
    harness side (identity outside the table). *)
-From OM Require Import Base.Lists Base.Wire Geom.MeshCodec.
+From OM Require Import Base.Lists Base.Wire Geom.MeshCodec Geom.MeshFormat.
 Local Open Scope Z_scope.
 
 Definition Cz := Z.
@@ -161,6 +161,32 @@ Definition run_c15 (w : wire) : wire :=
                        | _, _ => [32]
                        end
                    | _, _ => [32]
+                   end)
+  (* format selection by file name: the mesh is saved under the given name (character codes) and loaded back *)
+  | 8 :: w => run_dec (do flags <- getN; do n <- getN; do name <- getNs n; do m <- getMeshIn; do tb <- getTable; ret (flags, name, m, tb)) w
+                (fun '(flags, name, (vs, ts), tb) =>
+                   match mkmesh flags vs ts with
+                   | Ok m =>
+                       0 :: dump m ++
+                       match format_of name with
+                       | Some fmt =>
+                           match save_fmt fmt (lookup tb) m with
+                           | Ok f => if (fmt <=? 4)%nat then
+                                       match load_fmt fmt f with Ok m' => 0 :: dump m' | Fail => [33] | Throw => [32] end
+                                     else [31]
+                           | _ => [31]
+                           end
+                       | None => [31]
+                       end
+                   | _ => [30]
+                   end)
+  (* a mesh given by its state (geometry vertices, vertices() as positions, triangles as positions): save, load *)
+  | 10 :: w => run_dec (do fmt <- getN; do ng <- getN; do g <- getMany ng getV3; do nm <- getN; do mvl <- getNs nm;
+                        do k <- getN; do ts <- getMany k getTri; do tb <- getTable; ret (fmt, g, mvl, ts, tb)) w
+                (fun '(fmt, g, mvl, ts, tb) =>
+                   match save_fmt fmt (lookup tb) (mkMesh g mvl ts) with
+                   | Ok f => match load_fmt fmt f with Ok m' => 0 :: dump m' | Fail => [33] | Throw => [32] end
+                   | _ => [31]
                    end)
   | _ => [-1]
   end.
